@@ -31,7 +31,7 @@ RULE = (
     "pool (Python keywords, __debug__, dunder names, names of generated-code locals, duplicates); (3) token-level "
     "mutations (delete/duplicate/swap/replace/splice/unbalance/stray delimiters/quotes/\\r) of (2) and of 682 seed "
     "templates lifted from the repository's tests; (4) thorough: atheris coverage-guided target. Inputs <= 400 "
-    "characters; measured block nesting < 15, expression nesting < 30, operator chain < 100, bounded numeric "
+    "characters; measured block nesting < 15, expression nesting (brackets + unary run) < 30, operator chain per tag < 40, bounded numeric "
     "magnitudes (else counted as excluded). Non-trivial = the source contains a delimiter start of the "
     "configuration (the lexer leaves the root state); distinct = distinct (environment, source)."
 )
@@ -40,6 +40,8 @@ ASSUMPTIONS = [
     "'never hangs' is decided by size bounds (<= 400 characters, bounded nesting and numeric magnitudes), not by timing; a 60 s per-case watchdog only turns the run into a harness error",
     "the recursion limit during a case is pinned to 950 frames above the oracle's frame, i.e. what a caller near the top of a script with the default limit of 1000 gets",
     "F2 (CPython nesting limits) and F19 (unbounded constant folding) are excluded by measured depth / magnitude, never by exception signature",
+    "F37 (identifiers that are not NFKC-stable): sources that are not NFKC-normalised are excluded and counted; F38 (break/continue outside a loop, ext environment) likewise by the harness-side block stack",
+    "sources are Unicode text without lone surrogates",
     "environments are built once per process and reused (from_string does not depend on environment state)",
 ]
 
@@ -51,9 +53,13 @@ RECURSION_HEADROOM = 950
 def _envs():
     if _state:
         return _state
+    import warnings
+
     import jinja2
     from jinja2.sandbox import SandboxedEnvironment
 
+    # Python's compile() warns about generated code such as `1[0]`; not part of the property
+    warnings.filterwarnings("ignore", category=SyntaxWarning)
     for name, kw in srcgen.ENVS.items():
         cls = SandboxedEnvironment if name == "sandbox" else jinja2.Environment
         _state[name] = cls(**kw)
@@ -246,6 +252,26 @@ def _limit_memory():
         pass
 
 
+def _streams(ctx, rec, st):
+    env_st = st.sampled_from(srcgen.ENV_NAMES)
+    E = srcgen.ENV_NAMES
+    # stream 1: exhaustive short strings
+    yield lambda: core.enum_shard(_enum_slice(E, (0, 1, 2), "all", ctx.index, ctx.nshards), guarded, ctx, rec=rec)
+    # seeds verbatim, every environment (cheap, sliced)
+    seeds = ({"env": e, "src": s, "via": "seed", "mode": "all"} for s in srcgen.SEEDS for e in E)
+    yield lambda: core.enum_shard(core.sliced(seeds, ctx.index, ctx.nshards), guarded, ctx, rec=rec)
+    # stream 2: grammar
+    gram = env_st.flatmap(lambda e: srcgen.templates(e).map(lambda s: {"env": e, "src": s, "via": "gram", "mode": "all"}))
+    yield lambda: core.hyp_shard(gram, guarded, ctx, ctx.pick(N_GRAM_QUICK, N_GRAM_THOROUGH), rec=rec, tag="gram")
+    # stream 3: mutation
+    mut = env_st.flatmap(lambda e: srcgen.mutated(e).map(lambda s: {"env": e, "src": s, "via": "mut", "mode": "all"}))
+    yield lambda: core.hyp_shard(mut, guarded, ctx, ctx.pick(N_MUT_QUICK, N_MUT_THOROUGH), rec=rec, tag="mut")
+    yield lambda: core.enum_shard(_enum_slice(E, (3,), "fs", ctx.index, ctx.nshards), guarded, ctx, rec=rec)
+    if not ctx.quick:
+        yield lambda: core.enum_shard(_enum_slice(["default"], (4,), "fs", ctx.index, ctx.nshards), guarded, ctx, rec=rec)
+        yield lambda: _atheris_stream(ctx, rec)
+
+
 def run_shard(spec, ctx):
     import hypothesis.strategies as st
 
@@ -254,23 +280,10 @@ def run_shard(spec, ctx):
     rec = core.Rec()
     EXCLUDED_BY.clear()
     try:
-        # stream 1: exhaustive short strings
-        core.enum_shard(_enum_slice(srcgen.ENV_NAMES, (0, 1, 2), "all", ctx.index, ctx.nshards), guarded, ctx, rec=rec)
-        core.enum_shard(_enum_slice(srcgen.ENV_NAMES, (3,), "fs", ctx.index, ctx.nshards), guarded, ctx, rec=rec)
-        if not ctx.quick:
-            core.enum_shard(_enum_slice(["default"], (4,), "fs", ctx.index, ctx.nshards), guarded, ctx, rec=rec)
-        # stream 2: grammar
-        env_st = st.sampled_from(srcgen.ENV_NAMES)
-        gram = env_st.flatmap(lambda e: srcgen.templates(e).map(lambda s: {"env": e, "src": s, "via": "gram", "mode": "all"}))
-        core.hyp_shard(gram, guarded, ctx, ctx.pick(N_GRAM_QUICK, N_GRAM_THOROUGH), rec=rec, tag="gram")
-        # stream 3: mutation
-        mut = env_st.flatmap(lambda e: srcgen.mutated(e).map(lambda s: {"env": e, "src": s, "via": "mut", "mode": "all"}))
-        core.hyp_shard(mut, guarded, ctx, ctx.pick(N_MUT_QUICK, N_MUT_THOROUGH), rec=rec, tag="mut")
-        # seeds verbatim, every environment (cheap, sliced)
-        seeds = ({"env": e, "src": s, "via": "seed", "mode": "all"} for s in srcgen.SEEDS for e in srcgen.ENV_NAMES)
-        core.enum_shard(core.sliced(seeds, ctx.index, ctx.nshards), guarded, ctx, rec=rec)
-        if not ctx.quick:
-            _atheris_stream(ctx, rec)
+        for stream in _streams(ctx, rec, st):
+            stream()
+            if rec.violations:
+                break  # a failing run needs no further exploration (keeps sensitivity runs short)
     except _Watchdog as w:
         raise core.HarnessError("watchdog: a case ran longer than %d s; input saved to %s" % (WATCHDOG_S, w)) from None
     for k, v in EXCLUDED_BY.items():
